@@ -14,8 +14,8 @@ from . import core
 # ---------------------------------------------------------------- configurations
 
 
-def add(total=1, sync=False, rm=False, nopop=False, after=0, fail=0):
-    return {"op": "add", "total": total, "sync": sync, "rm": rm, "nopop": nopop, "after": after, "fail": fail}
+def add(total=1, sync=False, rm=False, nopop=False, after=0, fail=0, sd=None, prio=None):
+    return {"op": "add", "total": total, "sync": sync, "rm": rm, "nopop": nopop, "after": after, "fail": fail, "sd": sd, "prio": prio}
 
 
 def incr(b, n=1):
@@ -57,6 +57,7 @@ CONFIGS = {
     "manualsync": (2, 2, False, [[add(1, True), add(1, True), call("refresh"), incr(1), incr(2), call("refresh"), call("refresh"), call("wait")]], 0, "manual"),
     "latequeue": (2, 2, False, [[add(1), incr(1), add(1, after=1), incr(2), call("wait")]], 4),   # finding F2b (livelock: liveness only)
     "twosucc": (3, 3, False, [[add(1), add(1, after=1), add(1, after=1), incr(1), incr(2), incr(3), call("wait")]], 3),   # finding F2a
+    "cols":   (2, 2, False, [[add(1, sd=[("p", 0), ("p", 1), ("a", 0)]), add(1, sd=[("p", 1), ("a", 1)]), incr(1), incr(2), call("wait")]], 2),   # uneven columns on both sides
     "fault1": (2, 2, False, [[add(2, fail=2), add(1), incr(2), incr(1), call("wait")]], 3),           # a filler error, no synced decorators
     "fault2": (2, 2, False, [[add(2), add(1, fail=1), incr(1), call("wait")], [call("write")]], 3),
     "faultsync": (3, 3, False, [[add(2, True), add(2, True), add(2, fail=1), call("wait")]], 2),    # finding F5
@@ -65,21 +66,31 @@ CONFIGS = {
 
 
 def tla_op(o):
+    sd = o.get("sd")
+    if sd is None:
+        sd = [("p", 0)] if o.get("sync") else []
     f = {"op": o["op"], "b": o.get("b", 0), "n": o.get("n", 0), "drop": o.get("drop", False), "total": o.get("total", 0),
-         "rm": o.get("rm", False), "nopop": o.get("nopop", False), "sync": o.get("sync", False), "after": o.get("after", 0)}
+         "rm": o.get("rm", False), "nopop": o.get("nopop", False), "sd": [tuple(x) for x in sd], "after": o.get("after", 0),
+         "hasprio": o.get("prio") is not None, "prio": o.get("prio") or 0}
 
     def v(x):
         if isinstance(x, bool):
             return "TRUE" if x else "FALSE"
         if isinstance(x, str):
             return '"%s"' % x
+        if isinstance(x, list):
+            return "<< " + ", ".join('[side |-> "%s", idx |-> %d]' % (a, b) for a, b in x) + " >>"
+        if isinstance(x, int) and x < 0:
+            return "(0 - %d)" % (-x)
         return str(x)
     return "[" + ", ".join("%s |-> %s" % (k, v(x)) for k, x in f.items()) + "]"
 
 
-def write_model(wd, name, extra_cfg="", spec="Spec", invariants="NoPanic NoHang NoDupInFrame TextAtMostOnce TextWritten Quiescent ErrorReportedOnce NoRenderAfterError SortedFrames", sim=False):
-    nb, q, pop, progs, ticks = CONFIGS[name][:5]
-    refresh = CONFIGS[name][5] if len(CONFIGS[name]) > 5 else "auto"
+def write_model(wd, name, extra_cfg="", spec="Spec", invariants="NoPanic NoHang NoDupInFrame TextAtMostOnce TextWritten Quiescent ErrorReportedOnce NoRenderAfterError SortedFrames", sim=False, cfg=None):
+    cfg = cfg or CONFIGS[name]
+    nb, q, pop, progs, ticks = cfg[:5]
+    refresh = cfg[5] if len(cfg) > 5 else "auto"
+    progs = number_adds(progs)
     if sim:
         ticks = 12   # random walks waste ticks; the bound only has to keep a walk finite
     prog = "<< " + ", ".join("<< " + ", ".join(tla_op(o) for o in p) + " >>" for p in progs) + " >>"
@@ -116,8 +127,16 @@ def scenario(name, sid, steps=None, mode="replay", seed=1, stats=True):
             if o["op"] == "add":
                 nadd += 1
                 h = {"op": "add", "b": "b%d" % nadd, "total": o["total"]}
-                if o.get("sync"):
-                    h["pre"] = [{"sync": True, "w": 0, "space": False, "right": False, "needs": [1, 2], "listen": False, "ewma": False, "wrap": []}]
+                sd = o.get("sd")
+                if sd is None:
+                    sd = [("p", 0)] if o.get("sync") else []
+                for side, key in (("p", "pre"), ("a", "app")):
+                    idxs = [i for (sd_side, i) in sd if sd_side == side]
+                    if idxs:
+                        h[key] = [{"sync": k in idxs, "w": 0, "space": False, "right": False, "needs": [1, 2], "listen": False,
+                                   "ewma": False, "wrap": []} for k in range(max(idxs) + 1)]
+                if o.get("prio") is not None:
+                    h["prio"] = o["prio"]
                 if o.get("rm"):
                     h["rm"] = True
                 if o.get("nopop"):
@@ -144,20 +163,92 @@ def scenario(name, sid, steps=None, mode="replay", seed=1, stats=True):
             "sched": {"mode": mode, "seed": seed, "tickw": 1, "steps": steps or [], "budget": 0, "bias": []}, "stats": stats}
 
 
+def number_adds(progs):
+    """every Add carries the index of the bar it creates (program order of the Adds of client 0 first)"""
+    out, n = [], 0
+    for p in progs:
+        q = []
+        for o in p:
+            if o["op"] == "add":
+                n += 1
+                o = dict(o, b=n)
+            q.append(o)
+        out.append(q)
+    return out
+
+
+def scenario_to_config(sc):
+    """A generated scenario as an MPBCore configuration, or None when it uses something the specification does not model yet."""
+    c = sc["cfg"]
+    if c.get("delay") or c.get("outfault"):
+        return None
+    names, progs, fault_seen = {}, [], False
+    for ci, prog in enumerate(sc["clients"]):
+        for o in prog:
+            if o["op"] == "add":
+                if ci != 0:
+                    return None
+                names[o["b"]] = len(names) + 1
+    for prog in sc["clients"]:
+        q = []
+        for o in prog:
+            op = o["op"]
+            b = names.get(o.get("b"), 0)
+            if op == "add":
+                sd = []
+                for side, key in (("p", "pre"), ("a", "app")):
+                    for i, d in enumerate(o.get(key) or []):
+                        if d.get("sync"):
+                            sd.append((side, i))
+                fail = 0
+                if o.get("fault"):
+                    if o["fault"]["kind"] != "fill" or fault_seen:
+                        return None
+                    fault_seen = True
+                    fail = o["fault"]["at"]
+                q.append(add(o.get("total", 0), rm=o.get("rm", False), nopop=o.get("nopop", False), after=names.get(o.get("after"), 0),
+                             fail=fail, sd=sd, prio=o.get("prio")))
+            elif op in ("incr", "ewma"):
+                q.append({"op": "incr", "b": b, "n": o.get("n", 0)})
+            elif op in ("setcur", "refill"):
+                q.append({"op": op, "b": b, "n": o.get("n", 0)})
+            elif op == "settotal":
+                q.append({"op": op, "b": b, "n": o.get("n", 0), "drop": o.get("flag", False)})
+            elif op == "trigger":
+                q.append({"op": op, "b": b})
+            elif op == "abort":
+                q.append({"op": op, "b": b, "drop": o.get("flag", False)})
+            elif op == "prio":
+                q.append({"op": op, "b": b, "n": o.get("n", 0), "drop": o.get("flag", False)})
+            elif op in ("get", "barwait"):
+                q.append({"op": op, "b": b})
+            elif op in ("getcur", "getcomp", "getab"):
+                q.append({"op": "get1", "b": b})
+            elif op in ("write", "wait", "shutdown", "cancel", "refresh"):
+                q.append({"op": op})
+            else:
+                return None
+        progs.append(q)
+    if not names:
+        return None
+    return (len(names), 128 if c["q"] < 0 else c["q"], c["pop"], progs, 0, c["refresh"])
+
+
 # ---------------------------------------------------------------- labels
 
 def to_harness(lab):
     """MPBCore label -> harness gate label."""
     if lab == "tick":
         return "tick"
+    m = re.match(r"^(fmt:send|dist:start|dist:mid):(\d+)([pa]\d+)$", lab)
+    if m:
+        return "%s:b%s%s" % (m.group(1), m.group(2), m.group(3))
     m = re.match(r"^(.*?):(\d+)$", lab)
     if not m:
         return lab
     head, n = m.group(1), int(m.group(2))
     if head in ("cl", "pw:cancel"):
         return "%s:%d" % (head, n - 1)
-    if head in ("fmt:send", "dist:start", "dist:mid"):
-        return "%s:b%dp0" % (head, n)
     return "%s:b%d" % (head, n)
 
 
@@ -168,9 +259,9 @@ def to_model(lab):
     m = re.match(r"^(cl|pw:cancel):(\d+)$", lab)
     if m:
         return "%s:%d" % (m.group(1), int(m.group(2)) + 1)
-    m = re.match(r"^(.*):b(\d+)(p0)?$", lab)
+    m = re.match(r"^(.*):b(\d+)([pa]\d+)?$", lab)
     if m:
-        return "%s:%s" % (m.group(1), m.group(2))
+        return "%s:%s%s" % (m.group(1), m.group(2), m.group(3) or "")
     return lab
 
 
@@ -233,7 +324,7 @@ def gate_trace_events(traces):
     return evs
 
 
-def validate_traces(wd, name, traces):
+def validate_traces(wd, name, traces, cfg=None):
     """Returns (accepted ids, rejected ids, states, transitions, steps matched)."""
     ids = list(traces)
     evs = gate_trace_events(traces)
@@ -244,7 +335,7 @@ def validate_traces(wd, name, traces):
     with open(tf, "w") as f:
         for e in evs:
             f.write(json.dumps(e) + "\n")
-    mod = write_model(wd, name, spec="TSpec", invariants="", extra_cfg="POSTCONDITION Report\n")
+    mod = write_model(wd, name, spec="TSpec", invariants="", extra_cfg="POSTCONDITION Report\n", cfg=cfg)
     src = open(os.path.join(wd, mod + ".tla")).read().replace("EXTENDS MPBCore", "EXTENDS MPBTrace")
     open(os.path.join(wd, mod + ".tla"), "w").write(src)
     rc, out = run_tlc_dir(wd, mod, workers=1, env={"CORE_TRACE": tf, "CORE_OUT": of, "JAVA_TOOL_OPTIONS": "-Xss256m"}, timeout=2400)
